@@ -24,6 +24,11 @@ type Prog struct {
 	loadErrs  []string
 }
 
+func loadProgAt(root string, cs *ContractSet, patterns []string) (*Prog, error) {
+	p, err := loadProg(root, cs, patterns)
+	return p, err
+}
+
 func loadProg(root string, cs *ContractSet, patterns []string) (*Prog, error) {
 	cfg := &packages.Config{
 		Mode:       packages.LoadAllSyntax,
@@ -42,7 +47,7 @@ func loadProg(root string, cs *ContractSet, patterns []string) (*Prog, error) {
 			p.pkgByName[pk.Types.Name()] = append(p.pkgByName[pk.Types.Name()], pk.Types)
 		}
 		for _, e := range pk.Errors {
-			if strings.HasPrefix(pk.PkgPath, modulePath) {
+			if strings.HasPrefix(pk.PkgPath, modulePath) || strings.HasPrefix(pk.PkgPath, "fxproj") {
 				p.loadErrs = append(p.loadErrs, e.Error())
 			}
 		}
